@@ -14,7 +14,7 @@ import json
 
 import numpy as np
 
-from mc import kernel
+from mc import kernel, prog
 
 ID = "C08"
 LEVEL = "exploration"
@@ -39,6 +39,12 @@ class RecDict(dict):
         self.reads = set()
         self.writes = set()
         self.outside_reads = set()     # names read before anything wrote them during this execution
+
+    def sibling(self):
+        """another mapping of the same interpreter (e.g. a scratch namespace) reporting to the same log"""
+        r = RecDict()
+        r.reads, r.writes, r.outside_reads = self.reads, self.writes, self.outside_reads
+        return r
 
     def __getitem__(self, k):
         self.reads.add(k)
@@ -238,8 +244,7 @@ def execute(stmt, state):
     # live variables that share the names of the called functions: calling a function must not read them
     dict.__setitem__(rec, "<func>f", f_f)
     dict.__setitem__(rec, "<func>g", f_g)
-    it.context = rec
-    it.eval_mapper.context = rec
+    prog.install_store(it, rec, rec.sibling)
     err = None
     try:
         if it.evaluate_condition(stmt):
